@@ -119,10 +119,12 @@ def run_mcs(pid, tier, outdir):
     for mc in spec.get("mc", []):
         if mc.get("tier", "quick") == "thorough" and tier != "thorough":
             continue
+        if mc.get("only") == "quick" and tier != "quick":
+            continue
         name = mc["cfg"].replace(".cfg", "")
         meta = os.path.join(outdir, "meta_mc_" + name)
         logp = os.path.join(outdir, "mc_%s.log" % name)
-        r = tlc.run_mc(mc["module"], mc["cfg"], meta, logp, workers=mc.get("workers", 8),
+        r = tlc.run_mc(mc["module"], mc["cfg"], meta, logp, workers=mc.get("workers", 6),
                        timeout=mc.get("timeout", 3600), extra=["-coverage", "1"] if mc.get("coverage") else None)
         shutil.rmtree(meta, ignore_errors=True)
         log("[mc] %s: %s, %d states (%d distinct), %.1fs" % (name, "ok" if r["ok"] else "FAILED", r["generated"], r["distinct"], r["wall"]))
@@ -197,9 +199,11 @@ def run_property(pid, tier, seed, replay=None):
     build(profiles, EXE[0])
     tool_errors = []
     mc_res = []
+    mc_future = None
+    mc_pool = cf.ThreadPoolExecutor(max_workers=1)
     if not replay:
-        mc_res, errs = run_mcs(pid, tier, outdir)
-        tool_errors += errs
+        # the bounded model-checking configs run alongside the trace pipeline
+        mc_future = mc_pool.submit(run_mcs, pid, tier, outdir)
     # script
     all_results = []
     all_chunks = []
@@ -244,6 +248,10 @@ def run_property(pid, tier, seed, replay=None):
                                          "queries": [q for q in res["queries"] if q[1] == v[1]]})
         for rc in run_chunks:
             all_chunks += rc
+    if mc_future is not None:
+        mc_res, errs = mc_future.result()
+        tool_errors += errs
+    mc_pool.shutdown()
     if spec.get("post_filter"):
         viol_records = spec["post_filter"](viol_records, profiles[0], log)
     # report
